@@ -272,6 +272,10 @@ class FdEngine:
                     continue
                 if lab["kind"] == "cmp":
                     la, lb = op_local(lab["a"]), op_const(lab["b"])
+                    if la is not None and la not in aliases and la not in status_locals and status_locals:
+                        # a copy of the status result (`let r = socketpair(..); if r < 0`)
+                        if any(r.kind == "call" and f.term(r.block)["dest"]["l"] in status_locals for r in tracer.roots(la)):
+                            la = next(iter(status_locals))
                     if la is not None and lb is not None and (la in aliases or la in status_locals):
                         if _implies_invalid(lab["op"], lb, lab["truth"]):
                             return None
